@@ -468,3 +468,82 @@ def run(cx):
                 continue
             ob.fail("refuted", f"rpc-panic/{s['key']}", f"panic-capable construct `{s['what']}` in {s['body']}", s["body"], b.loc(s["bb"]))
         ob.matched += 1
+
+    with cx.ob("C17.7", "R-PATHSEQ", "Status → Response → Status keeps code, every header and the message: into_response only adds (extend + insert), never replaces or removes; from_response reads all three back") as ob:
+        ib = cx.impl_method(f"{RPC}::Status", "IntoResponse", "into_response")
+        fb = cx.body(f"{RPC}::Status::from_response")
+        HM = "std::collections::hash::map::HashMap"
+
+        def on_response_headers(t):
+            return term_has_call(t, "Response::headers_mut") and term_has_call(t, "IntoResponse::into_response")
+
+        def call_sym(c, o):
+            if name_matches(c.fn, "IntoResponse::into_response"):
+                a = strip_identity(o.of_operand(c.args[0]))
+                return "base(self.status)" if a[0] == "field" and a[2] == "status" and is_param(a[1], "self") else "base(?)"
+            if name_matches(c.fn, "Response::headers_mut") or name_matches(c.fn, "alloc::str::to_owned") or name_matches(c.fn, "ToOwned::to_owned"):
+                return None
+            if name_matches(c.fn, "iter::traits::collect::Extend::extend"):
+                ok = on_response_headers(o.of_operand(c.args[0])) and mentions_field(o.of_operand(c.args[1]), "headers") and mentions_param(o.of_operand(c.args[1]), "self")
+                return "extend(self.headers)" if ok else "extend(?)"
+            if name_matches(c.fn, f"{HM}::insert"):
+                k = strip_identity(o.of_operand(c.args[1]))
+                v = o.of_operand(c.args[2])
+                ok = on_response_headers(o.of_operand(c.args[0])) and any(x[0] == "named" and x[1].endswith("header::STATUS_MESSAGE") for x in walk(k)) \
+                    and mentions_field(v, "message") and mentions_param(v, "self")
+                return "insert(STATUS_MESSAGE,self.message)" if ok else "insert(?)"
+            if c.fn and (c.fn.startswith(HM + "::") or name_matches(c.fn, ("core::mem::replace", "core::mem::swap", "core::mem::take"))):
+                if c.fn.split("::")[-1] in ("is_empty", "len", "get", "contains_key", "iter", "keys", "values"):
+                    return None
+                return f"mutate:{c.fn.split('::')[-1]}"
+            return f"call:{c.fn.split('::')[-1]}" if c.fn else "call:?"
+
+        def stmt_sym(bbi, s, o):
+            lhs = s["lhs"]
+            if isinstance(lhs, dict) and "*" in lhs["p"]:
+                t = o.of_local(lhs["l"])
+                if term_has_call(t, ("Response::headers_mut", "Response::status_mut", "Response::body_mut", "Response::inner_mut")):
+                    return "overwrite-through:" + [x[1].split("::")[-1] for x in walk(t) if x[0] == "call" and name_matches(x[1], ("Response::headers_mut", "Response::status_mut", "Response::body_mut", "Response::inner_mut"))][0]
+            return None
+
+        def extra(a, bb, subj, labels, o):
+            if subj[0] == "discr":
+                r = strip_identity(subj[1])
+                if r[0] == "field" and r[2] == "message" and is_param(r[1], "self"):
+                    return "[" + "|".join(sorted(labels)) + "]"
+            return None
+        ws = {fmt_word(w) for w in seq_words(ib, call_sym, stmt_sym, extra, strict=True)}
+        fam_a = {"base(self.status) extend(self.headers) [None] <return>", "base(self.status) extend(self.headers) [Some] insert(STATUS_MESSAGE,self.message) <return>"}
+        fam_b = {"base(self.status) [None] extend(self.headers) <return>", "base(self.status) [Some] insert(STATUS_MESSAGE,self.message) extend(self.headers) <return>"}
+        ob.count(len(ws))
+        if ws not in (fam_a, fam_b):
+            for w in sorted(ws - fam_a):
+                ob.fail("refuted", "status-into-response/unexpected/" + w.replace(" ", "_")[:140], f"Status::into_response: path `{w}` is not 'status, plus all headers, plus the message header'", ib.path, ib.loc(), path=w)
+            for w in sorted(fam_a - ws):
+                ob.fail("refuted", "status-into-response/missing/" + w.replace(" ", "_")[:140], f"Status::into_response: required behaviour `{w}` missing", ib.path, ib.loc(), path=w)
+        else:
+            ob.matched += len(ws)
+        ret = strip_identity(Origins(ib).of_local(0))
+        ob.require(ret[0] == "call" and name_matches(ret[1], "IntoResponse::into_response"), "status-into-response/returns-base", f"into_response returns {show(ret)[:100]}", ib.path)
+        # StatusCode::into_response: an empty response whose status is self
+        sb = cx.impl_method("anemo::types::response::StatusCode", "IntoResponse", "into_response")
+        so = Origins(sb)
+        wr = [s for bl in sb.blocks if not bl.get("cleanup") for s in bl["s"] if s["k"] == "assign" and isinstance(s["lhs"], dict) and "*" in s["lhs"]["p"]]
+        ok = len(wr) == 1 and term_has_call(so.of_local(wr[0]["lhs"]["l"]), "Response::status_mut") and is_param(strip_identity(so.of_rvalue(wr[0]["rv"])), "self")
+        ob.require(ok, "statuscode-into-response/sets-status", "StatusCode::into_response does not store self as the response status", sb.path)
+        # from_response: Status { status: parts.status, headers: parts.headers, message: headers.get(STATUS_MESSAGE).cloned(), .. }
+        fo = Origins(fb)
+        aggs = [s for bl in fb.blocks if not bl.get("cleanup") for s in bl["s"] if s["k"] == "assign" and s["rv"]["k"] == "agg" and s["rv"].get("adt") == f"{RPC}::Status"]
+        ob.floor(aggs, 1, "Status aggregate in from_response", exact=True)
+        t = fo.of_rvalue(aggs[0]["rv"])
+        f = dict(zip(t[4], t[3]))
+
+        def part(x, fld):
+            x = strip_identity(x)
+            return x[0] == "field" and x[2] == fld and term_has_call(x, "Response::into_parts") and mentions_param(x, "response")
+        msg = f.get("message", ("u",))
+        gets = [x for x in walk(msg) if x[0] == "call" and name_matches(x[1], f"{HM}::get")]
+        okm = len(gets) == 1 and part(gets[0][2][0], "headers") and any(y[0] == "named" and y[1].endswith("header::STATUS_MESSAGE") for y in walk(gets[0][2][1])) \
+            and term_has_call(msg, ("Option::cloned", "Option::map", "Clone::clone"))
+        ob.require(part(f.get("status", ("u",)), "status") and part(f.get("headers", ("u",)), "headers") and okm, "status-from-response/fields",
+                   f"from_response builds {show(t)[:200]}", fb.path)
